@@ -103,6 +103,23 @@ type c20Case struct {
 	FailJ int
 	// HoldLock: deliver the signal while the harness holds the terminator's lock.
 	HoldLock bool
+	// ErrKind: what the failing task's error wraps (a task may fail with an
+	// error from a private context or connection of its own).
+	ErrKind string
+}
+
+func c20Err(kind string, i int) error {
+	switch kind {
+	case "canceled":
+		return fmt.Errorf("boom-from-task%d: private operation: %w", i, context.Canceled)
+	case "deadline":
+		return fmt.Errorf("boom-from-task%d: private operation: %w", i, context.DeadlineExceeded)
+	case "closed":
+		return fmt.Errorf("boom-from-task%d: %w", i, net.ErrClosed)
+	case "eof":
+		return fmt.Errorf("boom-from-task%d: %w", i, io.EOF)
+	}
+	return fmt.Errorf("boom-from-task%d", i)
 }
 
 func c20Sig(s string) os.Signal {
@@ -164,7 +181,7 @@ func c20Run(r *vlib.Run, c *c20Case, dir string) {
 	var sts []*c20Task
 	for i, tc := range c.Tasks {
 		st := &c20Task{name: fmt.Sprintf("task%d", i), run: tc.Run, stop: tc.Stop, ready: tc.Ready, lg: lg, term: srv.t.terminate,
-			readyC: make(chan struct{}), trigger: make(chan struct{}), stopGate: make(chan struct{}), err: fmt.Errorf("boom-from-task%d", i)}
+			readyC: make(chan struct{}), trigger: make(chan struct{}), stopGate: make(chan struct{}), err: c20Err(c.ErrKind, i)}
 		sts = append(sts, st)
 		tasks = append(tasks, st)
 	}
@@ -496,7 +513,8 @@ func TestVerifC20(t *testing.T) {
 	stims := []string{"signal", "fail", "fail+signal", "signal+fail"}
 	sigs := []string{"INT", "TERM", "HUP"}
 	for i := 0; i < n; i++ {
-		c := &c20Case{ID: fmt.Sprintf("serve/%d", i), Stim: stims[i%4], Sig: sigs[i/4%3]}
+		c := &c20Case{ID: fmt.Sprintf("serve/%d", i), Stim: stims[i%4], Sig: sigs[i/4%3],
+			ErrKind: []string{"plain", "canceled", "deadline", "closed", "eof"}[i/12%5]}
 		k := 1 + rr.Intn(5)
 		for j := 0; j < k; j++ {
 			tc := struct{ Run, Stop, Ready string }{"block", "prompt", "now"}
@@ -530,6 +548,9 @@ func TestVerifC20(t *testing.T) {
 		r.Begin(c.ID)
 		r.Nontrivial(c.ID)
 		r.Count("stimulus_"+c.Stim, 1)
+		if c.Stim != "signal" {
+			r.Count("failure_error_"+c.ErrKind, 1)
+		}
 		c20Run(r, c, dir)
 	}
 	_ = errors.New
